@@ -9,6 +9,8 @@ namespace Kopf.C20
 set_option maxHeartbeats 8000000 in
 theorem InvD.pres_d8 {cfg : Cfg} {s s' : State} {l : Label} (hB : InvB s) (hC : InvC s)
     (hI : InvD cfg s) (hl : ∀ n, l ≠ .delay n) (hg : l.grpD = 8) (h : step cfg s l = some s') : InvD cfg s' := by
+  have hlc : ∀ t : TS, t.live = true → t = .running ∨ t = .waitingFlag ∨ t.isStopping = true := by
+    intro t; cases t <;> simp [TS.live, TS.isStopping]
   have hb2 := hB.subOrch
   have hb3 := hB.wkRoot
   have hb4 := hB.wkSub
